@@ -423,7 +423,7 @@ pub fn profile_digest_line(ctx: &crate::props::Ctx, i: u64) -> String {
         let bugs: Vec<&&str> = crate::spec::BUGS.iter().filter(|b| !slow.contains(*b)).collect();
         let bug = **r.pick(&bugs);
         let scale = match bug {
-            "many-palette-packets" | "many-tags" | "many-layers" | "deep-nesting" | "link-chain" => *r.pick(&[3usize, 300, 2500]),
+            "many-palette-packets" | "many-tags" | "many-layers" | "deep-nesting" | "deep-nesting-closed" | "link-chain" => *r.pick(&[3usize, 300, 2500]),
             "many-frames-high-layer" => 20,
             _ => 1,
         };
